@@ -6,7 +6,7 @@
 # number / callable) at all six severities, named stream objects, and static_asserts pinning the statement's stream type.
 import os, sys
 sys.path.insert(0, os.path.join(os.path.dirname(os.path.abspath(__file__)), ".."))
-from props.log_common import LOGGERS, SEVS, NSLOTS, CKINDS, parse_f, parse_sinks, shapes_for
+from props.log_common import LOGGERS, SEVS, NSLOTS, CKINDS, OBJKINDS, parse_f, parse_sinks, shapes_for
 
 
 def filter_type(f):
@@ -39,6 +39,34 @@ def shape_code(shape):
             parts.append(" << FailBit{}")
         elif k == "o":      # function object, temporary
             parts.append(" << " + CB % (p, p))
+        elif k == "M":      # mutable capturing lambda, temporary
+            parts.append(" << [&it, calls = 0]() mutable { ++calls; g_ev.push_back(\"C\" + std::to_string(it[%d].id)); return it[%d].s; }" % (p, p))
+        elif k == "w":      # non-const operator(), temporary
+            parts.append(" << Fnc{ it[%d].id, it[%d].s }" % (p, p))
+        elif k == "W":      # non-const operator(), non-const variable
+            setup.append("Fnc W%d{ it[%d].id, it[%d].s };" % (p, p, p))
+            parts.append(" << W%d" % p)
+        elif k == "Q":      # non-const operator(), const variable (operator<< calls its own copy)
+            setup.append("const Fnc Q%d{ it[%d].id, it[%d].s };" % (p, p, p))
+            parts.append(" << Q%d" % p)
+        elif k == "i":      # non-const operator() and operator bool, temporary
+            parts.append(" << FncBool{ it[%d].id, it[%d].s }" % (p, p))
+        elif k == "I":      # … variable
+            setup.append("FncBool I%d{ it[%d].id, it[%d].s };" % (p, p, p))
+            parts.append(" << I%d" % p)
+        elif k == "j":      # non-const operator() and its own operator<<, variable
+            setup.append("FncIns j%d{ it[%d].id, it[%d].s };" % (p, p, p))
+            parts.append(" << j%d" % p)
+        elif k == "b":      # derived object through a reference to its base
+            setup.append("const Named b%d(it[%d].s);" % (p, p))
+            setup.append("const Shape& rb%d = b%d;" % (p, p))
+            parts.append(" << rb%d" % p)
+        elif k == "u":      # not copyable
+            setup.append("const NoCopy u%d(it[%d].s);" % (p, p))
+            parts.append(" << u%d" % p)
+        elif k == "m":      # copies render differently
+            setup.append("const CopyMarked m%d(it[%d].s);" % (p, p))
+            parts.append(" << m%d" % p)
         elif k == "l":      # lambda, temporary
             parts.append(" << " + LAMBDA % (p, p))
         elif k == "p":      # plain function: decays to std::string (*)()
@@ -79,7 +107,7 @@ def snk(shape):
 def slot_cases():
     """the named form: `s << <callable of kind k>;` as its own statement"""
     out = []
-    for k in CKINDS:
+    for k in CKINDS + OBJKINDS:
         setup, expr = shape_code(k)
         out.append("        case '%s':\n        {\n" % k)
         for l in setup:
@@ -239,6 +267,76 @@ static_assert(nitro::meta::is_callable<std::function<const char*()>, std::string
 static_assert(!nitro::meta::is_callable<std::function<long long()>, std::string()>::value,
               "a std::function returning a number is NOT a lazily evaluated callable for nitro::log (and is not streamable either)");
 
+// function objects whose call operator is NOT const
+struct Fnc
+{
+    int id;
+    std::string ret;
+    std::string operator()()
+    {
+        g_ev.push_back("C" + std::to_string(id));
+        return ret;
+    }
+};
+struct FncBool // … which can also be inserted into a std::ostream as a value (through operator bool)
+{
+    int id;
+    std::string ret;
+    std::string operator()()
+    {
+        g_ev.push_back("C" + std::to_string(id));
+        return ret;
+    }
+    operator bool() const { return true; }
+};
+struct FncIns // … which has its own operator<<
+{
+    int id;
+    std::string ret;
+    std::string operator()()
+    {
+        g_ev.push_back("C" + std::to_string(id));
+        return ret;
+    }
+};
+inline std::ostream& operator<<(std::ostream& o, const FncIns&) { return o << "<FncIns printed as a value>"; }
+static_assert(nitro::meta::is_callable<Fnc, std::string()>::value && nitro::meta::is_callable<FncBool, std::string()>::value &&
+                  nitro::meta::is_callable<FncIns, std::string()>::value,
+              "function objects with a non-const call operator are lazily evaluated callables");
+
+// streamable objects: a polymorphic one streamed through a reference to its copyable, non-abstract base
+struct Shape
+{
+    Shape() = default;
+    Shape(const Shape&) = default;
+    virtual ~Shape() {}
+    virtual std::string name() const { return "<base>"; }
+};
+struct Named : Shape
+{
+    std::string n;
+    explicit Named(const std::string& s) : n(s) {}
+    std::string name() const override { return n; }
+};
+inline std::ostream& operator<<(std::ostream& o, const Shape& s) { return o << s.name(); }
+// one that cannot be copied
+struct NoCopy
+{
+    std::string s;
+    explicit NoCopy(const std::string& t) : s(t) {}
+    NoCopy(const NoCopy&) = delete;
+    NoCopy& operator=(const NoCopy&) = delete;
+};
+inline std::ostream& operator<<(std::ostream& o, const NoCopy& v) { return o << v.s; }
+// one whose copies render differently from the original
+struct CopyMarked
+{
+    std::string s;
+    explicit CopyMarked(const std::string& t) : s(t) {}
+    CopyMarked(const CopyMarked& c) : s(c.s + "<copy>") {}
+};
+inline std::ostream& operator<<(std::ostream& o, const CopyMarked& v) { return o << v.s; }
+
 // a user type whose stream insertion fails
 struct FailBit
 {
@@ -388,6 +486,12 @@ static Item parse_item(const std::string& w)
     it.kind = w[0];
     if (w[0] == 'S') it.s = vh::unhex(w.substr(1));
     else if (w[0] == 'N') it.n = std::strtoll(w.c_str() + 1, nullptr, 10);
+    else if (w[0] == 'V')
+    {
+        if (w.size() < 3 || std::string("%s").find(w[1]) == std::string::npos) throw Bad();
+        it.ck = w[1];
+        it.s = vh::unhex(w.substr(2));
+    }
     else if (w[0] == 'X')
     {
         if (w.size() != 2 || std::string("xyz").find(w[1]) == std::string::npos) throw Bad();
@@ -513,7 +617,7 @@ static std::string run_case(const std::vector<std::string>& w)
                     for (auto& e : vh::split_on(f[4], ','))
                     {
                         items.push_back(parse_item(e));
-                        shape.push_back(items.back().kind == 'C' || items.back().kind == 'X' ? items.back().ck : items.back().kind);
+                        shape.push_back(items.back().kind == 'S' || items.back().kind == 'N' ? items.back().kind : items.back().ck);
                     }
                 int sh = -1;
                 for (int k = 0; k < k_logger[lg]->nshapes; k++)
@@ -576,7 +680,7 @@ static std::string run_case(const std::vector<std::string>& w)
     return out;
 }
 int main(int argc, char** argv) { return vh::driver_main(argc, argv, run_case); }
-""" % (NSLOTS, CKINDS))
+""" % (NSLOTS, OBJKINDS, CKINDS))
     return "\n".join(o) + "\n"
 
 
